@@ -960,16 +960,25 @@ def _clip(dom, args, kw):
         x = args[0]
         lo = kw.get("a_min", kw.get("min"))
         hi = kw.get("a_max", kw.get("max"))
-    if "out" in kw:
-        raise Unsupported("np.clip(out=)")
+    outarr = kw.get("out")
     if real_mode(dom, x, lo, hi):
         from . import libreal
-        return libreal.clip(dom, x, lo, hi)
+        res = libreal.clip(dom, x, lo, hi)
+        if outarr is not None:
+            dom.check_write(outarr.ref, "np.clip(out=)")
+            dom.run.heap[outarr.ref] = dom.run.heap[res.ref]
+            return outarr
+        return res
     tx, tl, th = vec_of(dom, x), vec_of(dom, lo), vec_of(dom, hi)
     t = uf("clip", Vec, Vec, Vec, Vec)(tx, tl, th)
     # axioms of np.clip for lb <= ub without NaN: result inside the box; identity on points inside the box
     dom.run.assume(z3.Implies(all_le(tl, th), inbox(t, tl, th)))
     dom.run.assume(z3.Implies(inbox(tx, tl, th), t == tx))
+    if outarr is not None:
+        # in-place variant: the result is written into `out` (a heap write, subject to the frame obligations)
+        dom.check_write(outarr.ref, "np.clip(out=)")
+        dom.run.heap[outarr.ref] = t
+        return outarr
     return new_arr(dom, t)
 
 
